@@ -139,6 +139,7 @@ pub fn run(tier: Tier) -> i32 {
             (0x0A, vec![]),              // ARM64
             (0x0B, vec![]),              // RISC-V
             (0x04, vec![0, 0, 0, 0]),    // x86 BCJ with start offset
+            (0x00, vec![]),              // unassigned; its record is two null bytes, like header padding
             (0x01, vec![]),
             (0x02, vec![]),
             (0x20, vec![0x16]),
